@@ -127,7 +127,24 @@ func NewRaceEngine(p *Prog, rv *Rendezvous) *RaceEngine {
 	e.Roles = append(e.Roles, rpc)
 	// the server set-up / shutdown code (RunRPCServer) is not a role: set-up precedes every
 	// goroutine, shutdown is outside the property's workload
-	for _, gs := range p.GoStarts() {
+	starts := p.GoStarts()
+	// goroutines started by the server's main function
+	if mp := p.pkgOf("cmd/dastard"); mp != nil {
+		for _, mem := range mp.Members {
+			fn, ok := mem.(*ssa.Function)
+			if !ok {
+				continue
+			}
+			Instrs(fn, func(in ssa.Instruction) {
+				if g, ok := in.(*ssa.Go); ok {
+					if f := g.Call.StaticCallee(); f != nil {
+						starts = append(starts, GoStart{Instr: g, In: fn, Callees: []*ssa.Function{f}})
+					}
+				}
+			})
+		}
+	}
+	for _, gs := range starts {
 		if len(gs.Callees) == 0 {
 			e.Notes = append(e.Notes, "go statement with unresolved callee in "+FuncName(gs.In))
 			continue
@@ -1195,6 +1212,9 @@ func mutexKey(v ssa.Value) string {
 	if u, ok := v.(*ssa.UnOp); ok && u.Op == token.MUL {
 		return mutexKey(u.X)
 	}
+	if g, ok := v.(*ssa.Global); ok {
+		return "var " + g.Name()
+	}
 	return ""
 }
 
@@ -1357,8 +1377,45 @@ func (e *RaceEngine) collect() {
 				}
 				e.acc[a.Key] = append(e.acc[a.Key], ra)
 			}
+			// package-level variables of the module, and the global stores of libraries that
+			// are not safe for concurrent use (table below)
+			Instrs(fn, func(in ssa.Instruction) {
+				switch x := in.(type) {
+				case *ssa.Store:
+					if g, ok := x.Addr.(*ssa.Global); ok && g.Pkg != nil && strings.HasPrefix(g.Pkg.Pkg.Path(), modPath) {
+						k := FieldKey{"var", g.Name()}
+						e.acc[k] = append(e.acc[k], RAccess{k, true, in, fn, held[in], r})
+					}
+				case *ssa.UnOp:
+					if g, ok := x.X.(*ssa.Global); ok && x.Op == token.MUL && g.Pkg != nil && strings.HasPrefix(g.Pkg.Pkg.Path(), modPath) {
+						k := FieldKey{"var", g.Name()}
+						e.acc[k] = append(e.acc[k], RAccess{k, false, in, fn, held[in], r})
+					}
+				}
+				if cc := CallOf(in); cc != nil {
+					if callee := cc.StaticCallee(); callee != nil && callee.Pkg != nil && callee.Signature.Recv() == nil {
+						if tbl, ok := librarySingletons[callee.Pkg.Pkg.Path()]; ok {
+							k := FieldKey{tbl.name, "global store"}
+							e.acc[k] = append(e.acc[k], RAccess{k, tbl.writes[callee.Name()], in, fn, held[in], r})
+						}
+					}
+				}
+			})
 		}
 	}
+}
+
+// librarySingletons: third-party packages whose package-level functions operate on one global
+// object without internal locking.  A call is a write when the function is listed, else a read.
+var librarySingletons = map[string]struct {
+	name   string
+	writes map[string]bool
+}{
+	"github.com/spf13/viper": {"viper", map[string]bool{
+		"Set": true, "SetDefault": true, "SetConfigName": true, "SetConfigFile": true, "SetConfigType": true,
+		"AddConfigPath": true, "ReadInConfig": true, "MergeInConfig": true, "ReadConfig": true, "MergeConfig": true,
+		"MergeConfigMap": true, "Reset": true, "BindEnv": true, "AutomaticEnv": true, "RegisterAlias": true,
+	}},
 }
 
 // freshBase: the accessed object is the result of a call whose every target returns a fresh allocation.
